@@ -8,6 +8,7 @@ Literal transcription of the field tables on top of ref/bits.py; integers only."
 from __future__ import annotations
 
 from .bits import pack_fields, unpack_fields
+from ref.bits import RefInputError  # noqa: E402
 
 TFVN = 0b1100
 FIXED_RULES = (0b000, 0b001, 0b010)  # TFDZ construction rules of fixed-length TFDZs: FHP / LVOP present
@@ -57,7 +58,7 @@ def tfdf_header(rule, upid, pointer=None) -> bytes:
 def frame_body(rule, upid, pointer, tfdz, insert_zone=None, ocf=None, fecf=None) -> bytes:
     """Everything after the primary header."""
     if ocf is not None and len(ocf) != OCF_LEN:
-        raise AssertionError("OCF is four octets")
+        raise RefInputError("OCF is four octets")
     return (insert_zone or b"") + tfdf_header(rule, upid, pointer) + bytes(tfdz) + (ocf or b"") + (fecf or b"")
 
 
